@@ -92,6 +92,7 @@ def judge(ctx, replay, res, flags, msgs, data, model_out, spec_out):
     names = [n for n, f in zip(['header', 'payload', 'bytes', 'offset', 'index'], flags) if f]
     by_off = {m['offset']: m for m in msgs}
     got = []
+    search_from = 0
     for tup in out:
         d = dict(zip(names, tup))
         o = None
@@ -100,9 +101,20 @@ def judge(ctx, replay, res, flags, msgs, data, model_out, spec_out):
         elif 'offset' in d:
             o = by_off.get(int(d['offset']), {'ordinal': -1})['ordinal']
         elif 'bytes' in d:
-            i = data.find(bytes(d['bytes']))
+            # messages come in file order; identical byte strings may occur more than once in a log
+            i = data.find(bytes(d['bytes']), search_from)
+            while i != -1 and i not in by_off:
+                i = data.find(bytes(d['bytes']), i + 1)
             o = by_off.get(i, {'ordinal': -1})['ordinal']
+            if i != -1:
+                search_from = i + 1
         got.append((o, d))
+    if 'index' not in names and 'offset' not in names and 'bytes' in names and spec_out != 'IndexError':
+        # identical byte strings can occur more than once in a log: compare the byte sequences themselves
+        spec_ords = [int(x) for x in spec_out.split(',') if x]
+        spec_bytes = [data[msgs[o]['offset']:msgs[o]['offset'] + msgs[o]['size']] for o in spec_ords]
+        if [bytes(d['bytes']) for _, d in got] == spec_bytes:
+            got = [(o, d) for o, (_, d) in zip(spec_ords, got)]
     ords = [o for o, _ in got]
     identifiable = any(f for f in flags[2:])
     if identifiable:
